@@ -22,12 +22,15 @@ What is proved here, for ALL inputs, worlds and instruction semantics (unbounded
   real builder on every run).
 
   `_partial`, because (a) the validator works on the `Core` abstraction of a dump
-  (`Abstract.lean`: a non-escaping Alloc is a private cell, everything else an opaque
-  operation) — the abstraction function is trusted, compared with the reference interpreter
-  only by the differential runs; (b) functions in which lift.go split a partially escaping
-  Alloc ("split alloc") are outside the fragment: the validator reports them as `skip-split`
-  and they are covered by differential execution only; (c) the naive-vs-compiled half is
-  explored (differential execution), not proved.
+  (`Abstract.lean`: a non-escaping Alloc is a private cell; a partially escaping Alloc of the
+  naive function that lift.go split is a shadow cell that is synced with the object where the
+  lifted function has its "split alloc" stores, checked by a typestate analysis; everything else is
+  an opaque operation) — the abstraction function is trusted, compared with the reference
+  interpreter only by the differential runs; (b) functions in which an Alloc was lifted only
+  because an earlier round of lift removed its escaping use (address stored into a local that was
+  lifted itself) are outside the fragment: the check reports them as `skip-indirect-alloc` /
+  `skip-split-unvalidated` and they are covered by differential execution only; (c) the
+  naive-vs-compiled half is explored (differential execution), not proved.
 
 Further theorems: determinism of the calculus is by construction (`Core.run` is a function);
 arithmetic of the reference interpreter (`wrapInt`) is shown to be Go's modular arithmetic.
